@@ -501,6 +501,11 @@ E2E_ATTR = {
     "g_4_2_t13_min0": ("gmin0::g_4_2_t13_min0", 4, 2, [1, 3]),
     "g_3_2_t12_max0": ("gmax0::g_3_2_t12_max0", 3, 2, [1, 2], "mx=0"),
     "g_3_2_t12_max100": ("gmax0::g_3_2_t12_max100", 3, 2, [1, 2]),
+    # groups with a display name / on a raw-identifier module / nested: their options must reach the benchmarks
+    "rg_3_2_t12": ("renamed::rg_3_2_t12", 3, 2, [1, 2]),
+    "rgi_3_2_t23": ("renamed::inner::rgi_3_2_t23", 3, 2, [2, 3]),
+    "raw_4_1_t3": ("type::raw_4_1_t3", 4, 1, [3]),
+    "z_0_2_t12": ("zero::z_0_2_t12", 0, 2, [1, 2]),
 }
 E2E_PLAIN = {"plain": "plain", "plain_inputs": "plain_inputs"}
 
@@ -518,6 +523,17 @@ def e2e_cases(rng, count):
         cases.append(e2e_case(tag, "attr", "b", n, s, th, extra))
         cases.append(e2e_case(tag, "attr", "t", n, s, th, extra))
         cases.append(e2e_case(tag, "attr+cli-n", "b", rng.choice([1, 2, 6, 9]), s, th, extra))
+    # how the run is started: the requested action (mode) decides, not the configured one
+    for tag in ("a_5_3_t123", "g_4_2_t12", "rgi_3_2_t23", "a_1_4_t13"):
+        n, s, th = E2E_ATTR[tag][1:4]
+        cases.append(e2e_case(tag, "attr", "t", n, s, th, "start=api-test"))
+        cases.append(e2e_case(tag, "attr", "b", n, s, th, "start=api-bench"))
+        cases.append(e2e_case(tag, "attr", "b", n, s, th, "start=args-test-then-api-bench"))
+        cases.append(e2e_case(tag, "attr", "t", n, s, th, "start=args-bench-then-api-test"))
+    cases.append(e2e_case("plain", "builder", "t", 5, 3, [1, 2], "start=api-test"))
+    cases.append(e2e_case("plain", "builder", "b", 5, 3, [1, 2], "start=api-bench"))
+    cases.append(e2e_case("plain", "cli", "b", 4, 2, [1, 3], "start=args-test-then-api-bench"))
+    cases.append(e2e_case("plain_inputs", "env", "t", 4, 2, [2], "start=args-bench-then-api-test"))
     # builder calls before config_with_args(), nothing on the command line / in the environment
     for n, s, th in ((7, 3, [1, 2]), (5, 2, [1, 2, 3]), (0, 3, [1, 2]), (1, 1, [4]), ("-", 2, [1, 3])):
         cases.append(e2e_case("plain", "builder", "b", n, s, th))
@@ -543,7 +559,14 @@ def e2e_cases(rng, count):
             extra = "bs=%d" % rng.choice([x for x in (1, 2, 4, 6) if x != s])
         if via == "builder" and rng.random() < 0.1:
             n = 0
-        cases.append(e2e_case(rng.choice(list(E2E_PLAIN)), via, "t" if rng.random() < 0.1 else "b", n, s, th, extra))
+        mode = "t" if rng.random() < 0.1 else "b"
+        r = rng.random()
+        if r < 0.3:
+            if via == "builder":
+                extra = "start=" + ("api-test" if mode == "t" else "api-bench")
+            else:
+                extra = (extra + " " if extra else "") + "start=" + ("args-bench-then-api-test" if mode == "t" else "args-test-then-api-bench")
+        cases.append(e2e_case(rng.choice(list(E2E_PLAIN)), via, mode, n, s, th, extra))
     seen, out = set(), []
     for c in cases:
         if c not in seen:
@@ -560,7 +583,8 @@ def e2e_stream(name, cases):
     h = {}
     for c in cases:
         d = dict(tok.split("=", 1) for tok in c.split(" "))
-        for k in ("via=" + d["via"], "mode=" + d["mode"], "thread_counts=%d" % len(d["threads"].split(","))):
+        for k in ("via=" + d["via"], "mode=" + d["mode"], "start=" + d.get("start", "main"),
+                  "thread_counts=%d" % len(d["threads"].split(","))):
             h[k] = h.get(k, 0) + 1
     return Stream(name, "c03e2e", cases, nontrivial=nt, crate="hx-loop", drv="loop", hist=h, impl_timeout=600,
                   describe="real Divan runner: samples/iters cells of every t=N row and per-thread call counts vs the model's C03 figures")
@@ -589,7 +613,7 @@ def shrink_e2e(item, rerun_case):
         for ch in cands:
             t = dict(d)
             t.update(ch)
-            line = " ".join(f"{k}={t[k]}" for k in ("bench", "via", "mode", "n", "s", "threads"))
+            line = " ".join(f"{k}={t[k]}" for k in ("bench", "via", "mode", "n", "s", "threads", "mx", "bn", "bs", "start") if k in t)
             try:
                 bad, impl, model, sb = fails(line)
             except Exception:
